@@ -30,6 +30,19 @@ for _p in sorted(glob.glob(os.path.join(VERIF, 'benign', '*.diff'))):
     _n = os.path.basename(_p)[:-5]
     VARIANTS.append({'id': 'benign:' + _n, 'prop': _n[:3], 'expect': 'silent', 'edits': [], 'patch': _p, 'witness': False})
 
+# changes seeded by independent agents (seeded/<id>/patch.diff, DESIGN.md section 12): the check of the property they
+# were written against must fire the rule recorded in meta.json
+for _d in sorted(glob.glob(os.path.join(VERIF, 'seeded', 'C*'))):
+    try:
+        _m = json.load(open(os.path.join(_d, 'meta.json')))
+        _rule = re.match(r'(C\d\d\.(R\d+|W))', _m['detected_by'][0]).group(1)
+        if _rule.endswith('.W'):
+            continue
+        VARIANTS.append({'id': 'seed:' + os.path.basename(_d), 'prop': _m['property'], 'expect': _rule, 'edits': [],
+                         'patch': os.path.join(_d, 'patch.diff'), 'witness': False})
+    except Exception:
+        pass
+
 
 def make_copy():
     tmp = tempfile.mkdtemp(prefix='amself-')
